@@ -505,7 +505,8 @@ where
                 }
             }
         }
-        if !failed {
+        // (a section in which cases were excluded for an open known finding may legitimately miss a class)
+        if !failed && rep.excluded.is_empty() {
             ctx.check_required(&self.name.clone(), &rep.classes, &self.required.clone());
         }
         ctx.reports.push(rep);
@@ -639,8 +640,10 @@ where
                 }
             },
             None => {
-                rep.exhaustive = self.complete;
-                ctx.check_required(&self.name.clone(), &rep.classes, &self.required.clone());
+                rep.exhaustive = self.complete && rep.excluded.is_empty();
+                if rep.excluded.is_empty() {
+                    ctx.check_required(&self.name.clone(), &rep.classes, &self.required.clone());
+                }
             },
         }
         ctx.reports.push(rep);
@@ -883,6 +886,8 @@ pub fn regression_files(root: &Path, prop: &str) -> Vec<PathBuf> {
 pub fn run_regressions(ctx: &mut Ctx, sections: &[Box<dyn Section>]) {
     let t0 = Instant::now();
     let files = regression_files(&ctx.root, ctx.prop);
+    let open = ctx.known.open_for(ctx.prop);
+    let mut excluded: BTreeMap<String, u64> = BTreeMap::new();
     let mut n = 0;
     for path in &files {
         let Ok(text) = std::fs::read_to_string(path) else { continue };
@@ -896,6 +901,11 @@ pub fn run_regressions(ctx: &mut Ctx, sections: &[Box<dyn Section>]) {
         };
         n += 1;
         if let Err(m) = sec.replay(&file.case) {
+            // an open known finding also covers its regression inputs
+            if let Some(sig) = open.iter().find(|sig| m.contains(sig.as_str())) {
+                *excluded.entry(sig.clone()).or_insert(0) += 1;
+                continue;
+            }
             if ctx.failure.is_none() {
                 ctx.failure = Some(Failure {
                     section: file.section.clone(),
@@ -914,7 +924,7 @@ pub fn run_regressions(ctx: &mut Ctx, sections: &[Box<dyn Section>]) {
         distinct_nontrivial: 0,
         classes: BTreeMap::new(),
         samples: Vec::new(),
-        excluded: BTreeMap::new(),
+        excluded,
         exhaustive: false,
         space: Some(files.len() as u64),
         wall_s: t0.elapsed().as_secs_f64(),
